@@ -92,5 +92,10 @@ func parseWOFF(file Resource, offset uint32, relativeOffset bool) (*Loader, erro
 		fontParser.tables[entry.Tag] = sec
 	}
 
+	fontParser.size, err = file.Seek(0, io.SeekEnd)
+	if err != nil {
+		return nil, err
+	}
+
 	return fontParser, nil
 }
